@@ -6,9 +6,14 @@ import (
 	"path/filepath"
 	"strings"
 	"testing"
+
+	d128 "github.com/woodsbury/decimal128"
+
+	"verif/harness/ref"
 )
 
 func TestMain(m *testing.M) {
+	warmUp()
 	code := m.Run()
 	dumpStats()
 	os.Exit(code)
@@ -81,5 +86,52 @@ func TestReplay(t *testing.T) {
 	if dir := os.Getenv("VERIF_OUT"); dir != "" {
 		b, _ := json.MarshalIndent(out, "", " ")
 		_ = os.WriteFile(filepath.Join(dir, "replay-results.json"), b, 0o644)
+	}
+}
+
+// warmUp makes the process's FIRST use of every rounding mode happen in an order that is not the declaration order
+// (a permutation derived from VERIF_SEED; the checks themselves loop over the modes in declaration order, as every
+// `for mode := range modes` caller does). State that the library builds lazily on first use — a decision table per
+// mode, a cache sized by the first request — must come out the same whatever that order was; everything the checks
+// evaluate afterwards is judged by the exact oracles, so a table left half-built by an unusual order of first uses
+// shows as ordinary violations. The results of the warm-up calls themselves are not looked at.
+func warmUp() {
+	perm := append([]d128.RoundingMode(nil), ref.Modes...)
+	h := splitmix(cfg.seed ^ 0x77a7)
+	for i := len(perm) - 1; i > 0; i-- {
+		h = splitmix(h)
+		j := int(h % uint64(i+1))
+		perm[i], perm[j] = perm[j], perm[i]
+	}
+	if perm[0] == ref.Modes[0] { // never start with the first declared mode
+		perm[0], perm[len(perm)-1] = perm[len(perm)-1], perm[0]
+	}
+	one, three, seven := d128.New(1, 0), d128.New(3, 0), d128.New(-7, 0)
+	big := d128.MustParse("9999999999999999999999999999999999e6111")
+	tiny := d128.New(1, -6176)
+	for _, m := range perm {
+		_ = one.QuoWithMode(three, m)
+		_ = seven.QuoWithMode(three, m)
+		_ = one.QuoWithMode(three, m).MulWithMode(seven.QuoWithMode(three, m), m)
+		_ = one.AddWithMode(tiny, m)
+		_ = seven.SubWithMode(tiny, m)
+		_ = big.AddWithMode(big, m)
+		_ = tiny.QuoWithMode(three, m)
+		_ = one.QuoWithMode(three, m).Round(5, m)
+		_, _ = seven.QuoRemWithMode(tiny, m)
+		_ = three.PowWithMode(one.QuoWithMode(three, m), m)
+		withDefaultMode(m, func() {
+			_, _ = d128.Parse("-0.66666666666666666666666666666666666666666666")
+			_ = d128.FromFloat64(0.1)
+			_ = d128.New(12345, -6179)
+			_ = d128.Ldexp(seven, -6180)
+			_ = d128.Sqrt(three)
+			_ = d128.Cbrt(seven)
+			_ = d128.Exp(one)
+			_ = d128.Log(three)
+			_ = d128.Log1p(tiny)
+			_ = d128.Exp2(one.Quo(three))
+			_ = d128.Exp10(one.Quo(three))
+		})
 	}
 }
